@@ -144,8 +144,13 @@ def run_case_impl(case):
 
     model = Model()
 
+    class Injected(Exception):
+        pass
+
     def rec(e):
         log.append((e, bool(model.training), impl.grad_mode()))
+        if getattr(case, "raise_at", None) is not None and len(log) - 1 == case.raise_at:
+            raise Injected("injected at event %d" % case.raise_at)
 
     def criterion(outputs, labels):
         rec("Criterion")
@@ -433,6 +438,11 @@ Definition model_out (c : case) :=
   let s0 := {| mtrain := c_t0 c; mgrad := c_g0 c; msaved := []; mdepth := 0 |} in
   (annot s0 (fst r), snd r, mrun s0 (fst r),
    if snd r then fit_history (c_eval c) (c_data c) (nb (c_cfg c)) (val (c_cfg c)) (c_epochs c) else []).
+Definition model_out_raise (ck : case * nat) :=
+  let c := fst ck in
+  let s0 := {| mtrain := c_t0 c; mgrad := c_g0 c; msaved := []; mdepth := 0 |} in
+  let t := unwind s0 (firstn (S (snd ck)) (fst (fit (c_cfg c) (c_epochs c)))) in
+  (annot s0 t, false, mrun s0 t, @nil (string * list Q)).
 Definition out_eqb (m : list (ev * (bool * bool)) * bool * mst * hist)
                    (i : list (ev * (bool * bool)) * bool * (bool * bool) * hist) : bool :=
   match m, i with
@@ -454,6 +464,10 @@ def batch_coq(b):
 
 
 def case_coq(case, res):
+    return "(%s,\n  %s)" % case_coq_parts(case, res)
+
+
+def case_coq_parts(case, res):
     cfg = "{| nb := %d; val := %s; has_eval := %s; cb_train := %s; cb_val := %s |}" % (
         case.nb, "None" if case.nbv is None else "Some %d%%nat" % case.nbv, cb(case.mode is not None), cb(case.cb_train), cb(case.cb_val))
     ev = "None"
@@ -467,7 +481,7 @@ def case_coq(case, res):
     obs = clist(["(%s, (%s, %s))" % (ev_coq(e), cb(t), cb(g)) for e, t, g in res["trace"]])
     hist = clist(["(%s, %s)" % (cstr(k), clist([cq(v) for v in vs])) for k, vs in (res["history"] or [])])
     ok = res["raised"] is None
-    return "(%s,\n  (%s, %s, (%s, %s), %s))" % (c, obs, cb(ok), cb(res["final"][0]), cb(res["final"][1]), hist)
+    return c, "(%s, %s, (%s, %s), %s)" % (obs, cb(ok), cb(res["final"][0]), cb(res["final"][1]), hist)
 
 
 def parse_natlist(out):
@@ -793,6 +807,193 @@ def run_scenario(spec, seed):
     return problems, info
 
 
+# ------------------------------------------------------------------ real-model scenarios, part 2: used loaders, interrupted runs, exceptions
+def scenario2_specs():
+    specs = []
+    for which in ("train", "val", "test", "train+val+test"):
+        for how in ("peek", "break"):
+            specs.append({"kind": "loader-partially-iterated-before", "which": which, "how": how})
+    specs.append({"kind": "fit-after-interrupted-fit", "where": "train_forward"})
+    specs.append({"kind": "fit-after-interrupted-fit", "where": "val_forward"})
+    for where in ("val_forward", "val_loss", "val_evaluator", "val_epoch_callback", "test_forward"):
+        for retain in (False, True):
+            specs.append({"kind": "exception-caught-by-caller", "where": where, "retain_grads_active": retain,
+                          "exception": "KeyboardInterrupt" if (where == "val_evaluator" and retain) else "RuntimeError"})
+    return specs
+
+
+def run_scenario2(spec, seed):
+    """Real Sequential(Linear, BatchNorm1d, ReLU, Dropout, Linear) / SGD / DataLoader / CrossEntropyLoss / Evaluator.
+    First the disturbance described by spec (loader objects partially iterated, a fit interrupted by an exception, an
+    exception inside validation / test caught by the caller), then a complete fit(2 epochs, validation) and a test(),
+    judged directly: every epoch sees exactly the batches 0..len-1 of its loader in order, epochs*len updates, training
+    forwards with gradients on, global grad / retain modes as before."""
+    import io, contextlib
+    impl = _impl()
+    np, sg, nn, optim = impl.np, impl.synapgrad, impl.nn, impl.optim
+    tm = train_mod()
+    from synapgrad.nn.utils.data import DataLoader, DataLoaderCallback
+    impl.reset_modes()
+    rs = np.random.RandomState(seed)
+    np.random.seed(seed)
+    N, NV, NH, F, K, BS = 24, 12, 12, 4, 3, 4
+    X = rs.randn(N + NV + NH, F).astype(np.float32)
+    y = rs.randint(0, K, size=N + NV + NH)
+
+    class T(DataLoaderCallback):
+        def __call__(self, dl, xb, yb):
+            return sg.Tensor(xb), sg.Tensor(yb)
+    loaders = {"train": DataLoader(X[:N], y[:N], BS, transform=T()),
+               "val": DataLoader(X[N:N + NV], y[N:N + NV], BS, transform=T()),
+               "test": DataLoader(X[N + NV:], y[N + NV:], BS, transform=T())}
+    offs = {"train": 0, "val": N, "test": N + NV}
+    nbs = {k: len(l) for k, l in loaders.items()}
+    expect = {k: [X[offs[k] + i * BS: offs[k] + (i + 1) * BS].tobytes() for i in range(nbs[k])] for k in loaders}
+    bn = nn.BatchNorm1d(8)
+    model = nn.Sequential(nn.Linear(F, 8), bn, nn.ReLU(), nn.Dropout(0.25), nn.Linear(8, K))
+    opt = optim.SGD(model.parameters(), lr=0.05)
+    problems = []
+    st = {"phase": "entry", "steps": 0, "seen": [], "armed": None, "count": {}}
+
+    class Boom(RuntimeError):
+        pass
+    exc_type = KeyboardInterrupt if spec.get("exception") == "KeyboardInterrupt" else Boom
+
+    def note(msg):
+        if msg not in problems:
+            problems.append(msg)
+
+    def maybe_raise(point):
+        if st["armed"] and st["armed"][0] == point:
+            st["count"][point] = st["count"].get(point, 0) + 1
+            if st["count"][point] == st["armed"][1]:
+                st["armed"] = None
+                raise exc_type("injected at %s" % point)
+    first = model.submodules()[0]
+    orig_forward = first.forward
+
+    def hooked(x):
+        ph = st["phase"]
+        st["seen"].append((ph, np.asarray(x.data).tobytes()))
+        maybe_raise({"train": "train_forward", "val": "val_forward", "test": "test_forward"}.get(ph, ph))
+        out = orig_forward(x)
+        if ph == "train" and (not impl.grad_mode() or not out.requires_grad):
+            note("training forward with gradient tracking disabled (grad mode %s, output requires_grad %s)" % (impl.grad_mode(), out.requires_grad))
+        if ph in ("val", "test") and (impl.grad_mode() or model.training):
+            note("%s forward with grad mode %s, model.training %s" % (ph, impl.grad_mode(), model.training))
+        return out
+    first.forward = hooked
+    real_step = opt.step
+
+    def step():
+        real_step(); st["steps"] += 1
+    opt.step = step
+    ce = nn.CrossEntropyLoss()
+
+    def loss_fn(o, l):
+        if st["phase"] == "val":
+            maybe_raise("val_loss")
+        return ce(o, l)
+
+    def step_cb(yt, yp):
+        if st["phase"] == "val":
+            maybe_raise("val_evaluator")
+        return []
+
+    def epoch_cb(yt, yp):
+        if st["phase"] == "val":
+            maybe_raise("val_epoch_callback")
+        return []
+
+    class Kbar:
+        def __init__(self, *a, **k):
+            st["phase"] = "train"
+
+        def update(self, i, values=None):
+            pass
+
+        def add(self, n, values=None):
+            pass
+
+    def on_val(m, l):
+        st["phase"] = "val"
+
+    def do_test():
+        st["phase"] = "test"
+        with contextlib.redirect_stdout(io.StringIO()):
+            return trainer.test(loaders["test"])
+
+    def do_fit(epochs):
+        return trainer.fit(loaders["train"], epochs, validation_loader=loaders["val"], on_validation_epoch=on_val)
+    old_pk = tm.pkbar
+    tm.pkbar = types.SimpleNamespace(Kbar=Kbar)
+    outer = contextlib.ExitStack()
+    try:
+        if spec.get("retain_grads_active"):
+            outer.enter_context(sg.retain_grads())
+        modes_before = (impl.grad_mode(), impl.retain_mode())
+        trainer = tm.Trainer(model, sg)
+        trainer.compile(loss_fn, opt, tm.Evaluator(epoch_callback=epoch_cb, step_callback=step_cb, mode=tm.Evaluator.MULTI_CLASS))
+        # ---- the disturbance
+        if spec["kind"] == "loader-partially-iterated-before":
+            for name in spec["which"].split("+"):
+                if spec["how"] == "peek":
+                    next(iter(loaders[name]))
+                else:
+                    for i, _ in enumerate(loaders[name]):
+                        if i == 1:
+                            break
+        else:
+            where = spec["where"]
+            st["armed"] = (where, 2 if where.endswith("forward") or where in ("val_loss", "val_evaluator") else 1)
+            try:
+                if where == "test_forward":
+                    do_test()
+                else:
+                    do_fit(1)
+                note("the injected exception did not propagate to the caller")
+            except (Boom, KeyboardInterrupt):
+                pass
+            if (impl.grad_mode(), impl.retain_mode()) != modes_before:
+                note("after the exception raised at %s was caught by the caller the global (grad, retain) modes are %s, before they were %s" % (
+                    where, (impl.grad_mode(), impl.retain_mode()), modes_before))
+        # ---- then a complete run
+        st["seen"], st["steps"], st["armed"] = [], 0, None
+        epochs = 2
+        hist = do_fit(epochs)
+        pred, true = do_test()
+        seq = st["seen"]
+        want = []
+        for e in range(epochs):
+            want += [("train", b) for b in expect["train"]] + [("val", b) for b in expect["val"]]
+        want += [("test", b) for b in expect["test"]]
+        if seq != want:
+            got = [p for p, _ in seq]
+            per = {ph: sum(1 for p in got if p == ph) for ph in ("train", "val", "test")}
+            if len(seq) != len(want):
+                note("the run after the disturbance made %d training / %d validation / %d test forwards, expected %d / %d / %d" % (
+                    per["train"], per["val"], per["test"], epochs * nbs["train"], epochs * nbs["val"], nbs["test"]))
+            else:
+                i = next(i for i, (a, b) in enumerate(zip(seq, want)) if a != b)
+                note("forward #%d of the run (phase %s) did not receive batch #%d of its loader" % (i, seq[i][0], i % (nbs["train"] + nbs["val"])))
+        if st["steps"] != epochs * nbs["train"]:
+            note("%d parameter updates, expected epochs*len(train_loader) = %d" % (st["steps"], epochs * nbs["train"]))
+        for k in ("loss", "accuracy", "val_loss", "val_accuracy"):
+            if len(hist.get(k, [])) != epochs:
+                note("history[%r] has %d entries for %d epochs" % (k, len(hist.get(k, [])), epochs))
+        if pred.shape != (nbs["test"] * BS, K) or list(true) != list(y[N + NV:N + NV + nbs["test"] * BS]):
+            note("test() returned %d predictions / wrong labels for a loader of %d samples" % (len(pred), nbs["test"] * BS))
+        if (impl.grad_mode(), impl.retain_mode()) != modes_before:
+            note("global (grad, retain) modes after the run are %s, before %s" % ((impl.grad_mode(), impl.retain_mode()), modes_before))
+    except BaseException as ex:
+        note("run raised %s: %s" % (type(ex).__name__, str(ex)[:120]))
+    finally:
+        outer.close()
+        tm.pkbar = old_pk
+        impl.reset_modes()
+    return problems, {"batches": nbs, "forwards": len(st["seen"]), "parameter_updates": st["steps"]}
+
+
 # ------------------------------------------------------------------ the check
 def gen_cases(ctx):
     rng = ctx.rng
@@ -859,6 +1060,47 @@ def run(ctx):
             mism2.append({"case": c.descr(), "expected": "UnboundLocalError", "raised": r["raised"]})
     ctx.tie("trainer/empty loaders raise", "correspondence", len(mal), sum(1 for c in mal if c.epochs >= 1), mism2, exhaustive=True,
             note="empty train / validation loaders: fit raises UnboundLocalError on `i`; trace prefix and modes left behind compared with the model")
+
+    # ---- exceptions: an event of the run raises, the caller catches ---------------------------------
+    RAISABLE = {"Forward", "Criterion", "ZeroGrad", "Backward", "Step", "OnTrainEpochCb", "OnValEpochCb", "EvalStep", "EvalCompute", "KbarUpdate", "KbarAdd"}
+    rpairs = []
+    cand = [i for i, c in enumerate(cases) if c.epochs >= 1 and results[i]["raised"] is None]
+    for i in ctx.rng.sample(cand, min(len(cand), 80 if ctx.quick else 400)):
+        tr = results[i]["trace"]
+        idx = [k for k, (e, _, _) in enumerate(tr) if (e[0] if isinstance(e, tuple) else e) in RAISABLE]
+        inside = [k for k in idx if not tr[k][2] and cases[i].g0]          # events inside the no_grad block
+        k = ctx.rng.choice(inside) if (inside and ctx.rng.random() < 0.6) else ctx.rng.choice(idx)
+        c2 = Case.from_descr(cases[i].descr())
+        c2.raise_at = k
+        rpairs.append((c2, run_case_impl(c2), k))
+    files = []
+    CH = 100
+    for j in range(0, len(rpairs), CH):
+        rows = []
+        for c2, r2, k in rpairs[j:j + CH]:
+            cc, oo = case_coq_parts(c2, r2)
+            rows.append("((%s, %d%%nat),\n  %s)" % (cc, k, oo))
+        files.append(("raise_%d" % (j // CH), HEADER + "Definition cases : list ((case * nat) * (list (ev * (bool * bool)) * bool * (bool * bool) * hist)) := [\n %s].\nEval vm_compute in (mismatches model_out_raise out_eqb cases).\n" % ";\n ".join(rows)))
+    rres = ctx.coq_eval_many(files)
+    mism5 = []
+    for (name, _), j in zip(files, range(0, len(rpairs), CH)):
+        ok, out = rres[name]
+        lists = parse_natlist(out)
+        if not ok or len(lists) != 1:
+            mism5.append({"file": name, "error": out[-600:]}); continue
+        for i in lists[0]:
+            c2, r2, k = rpairs[j + i]
+            mism5.append({"case": c2.descr(), "raise_at_event": k, "implementation_trace": [ev_coq(e) for e, _, _ in r2["trace"]],
+                          "modes": [(t, g) for _, t, g in r2["trace"]], "final": r2["final"], "raised": r2["raised"]})
+    ctx.tie("trainer/an event raises, caller catches", "correspondence", len(rpairs), sum(1 for c2, r2, k in rpairs if any(e == "NoGradExit" for e, _, _ in r2["trace"][k:])), mism5,
+            note="the mock that logs event k raises (forward, criterion, evaluator, optimizer, callbacks, progress bar); trace, modes and the modes left "
+                 "behind compared with `unwind` (prefix + __exit__ of the open no_grad block); non-trivial = raised inside the validation block")
+    for c2, r2, k in rpairs:          # direct judgement: the global gradient mode after the caught exception is the mode before
+        if r2["final"][1] != c2.g0 and not any(w["class"] == "exception-in-run" for w in ctx.witnesses):
+            ctx.witness("nn.utils.train.Trainer.fit", "exception-in-run", {"case": c2.descr(), "raise_at_event": k},
+                        "an exception raised inside fit and caught by the caller leaves the global gradient mode as it was",
+                        {"verdict": "grad mode after the caught exception is %s, before it was %s" % (r2["final"][1], c2.g0),
+                         "trace": [ev_coq(e) for e, _, _ in r2["trace"]]})
 
     # ---- Trainer.test --------------------------------------------------------------------------
     tcases = [(nbt, t0, g0) for nbt in range(0, 4) for t0 in (False, True) for g0 in (False, True)]
@@ -944,11 +1186,12 @@ Eval vm_compute in (mismatches tmodel (pair_eqb obs_eqb (pair_eqb Bool.eqb Bool.
 
     # real-model scenarios: module flags inconsistent with the root at entry; callbacks calling trainer.test() re-entrantly
     sres = [(sp, ) + run_scenario(sp, ctx.seed % 100000) for sp in scenario_specs()]
+    sres += [(sp, ) + run_scenario2(sp, ctx.seed % 100000) for sp in scenario2_specs()]
     ctx.extra["real_model_scenarios"] = {"run": len(sres), "failing": [dict(sp, problems=pr) for sp, pr, _ in sres if pr]}
     ctx.sample({"scenario": sres[-4][0], "info": sres[-4][2]})
     sfail = [(sp, pr, inf) for sp, pr, inf in sres if pr]
     if sfail:
-        sp, pr, inf = min(sfail, key=lambda t: (t[0]["reentrant"] is None and t[0]["entry"] == "fit", len(t[1])))
+        sp, pr, inf = min(sfail, key=lambda t: ("kind" not in t[0] and t[0].get("reentrant") is None and t[0].get("entry") == "fit", len(t[1])))
         ctx.witness("nn.utils.train.Trainer.fit/test", "real-model-scenario", {"scenario": sp, "seed": ctx.seed % 100000},
                     "every module below the model is in training mode during training forwards and in eval mode (gradients off) during "
                     "validation/test forwards, whatever the flags were at entry; validation/test change no parameter or running statistic; "
@@ -967,13 +1210,20 @@ def replay(ctx, data):
     if data.get("kind") != "failing-input":
         print(json.dumps(data.get("broken"), indent=1)); return 1
     if data["class"] == "real-model-scenario":
-        problems, info = run_scenario(data["input"]["scenario"], data["input"]["seed"])
+        sp = data["input"]["scenario"]
+        problems, info = (run_scenario2 if "kind" in sp else run_scenario)(sp, data["input"]["seed"])
         print("problems:", problems)
         return 1 if problems else 0
     if data["class"] == "end-to-end":
         problems, info = end_to_end(ctx, ctx.seed % 100000)
         print("problems:", problems)
         return 1 if problems else 0
+    if data["class"] == "exception-in-run":
+        c = Case.from_descr(data["input"]["case"])
+        c.raise_at = data["input"]["raise_at_event"]
+        r = run_case_impl(c)
+        print("final modes:", r["final"], "grad mode before:", c.g0)
+        return 1 if r["final"][1] != c.g0 else 0
     if data["class"] == "test-run":
         i = data["input"]
         log, raised, final, npred = run_test_impl(i["batches"], i["model.training before"], i["grad mode before"])
